@@ -258,7 +258,7 @@ func c09Run(t *testing.T, c c09Case) (*vsched.Exec, [][2]string) {
 func TestVerifC09(t *testing.T) {
 	r := ev.Begin("C09", "sequences")
 	defer r.End(t)
-	r.Rule = "message sequences fed to the real advertiser and the real monitor (with and without verbose logging) (instrumented, virtual clock, canonical schedule): (a) every single message type {RS,RA,NS,NA} x every hop limit 0..255; (b) all sequences of length<=L over {valid RS, RS hop 64, NS hop 255, RA hop 1, transient receive timeout (at most 4)} followed by a valid RS; (c) runs of 1..12 consecutive invalid messages (pure, mixed, with a timeout inside; retry budget is 5) followed by a valid RS; oracle: invalid counter = number of invalid messages by type, handled/monitor counters = valid ones, one unicast RA per valid RS, every message read within 310ms of its arrival (receive back-off never grows with invalid traffic), Run still running and no re-dial at the end; states = sequences executed; non-trivial = sequence contains an invalid message; distinct = distinct (mode, sequence)"
+	r.Rule = "message sequences fed to the real advertiser and the real monitor (with and without verbose logging) (instrumented, virtual clock, canonical schedule): (a) every single message type {RS,RA,NS,NA} x every hop limit 0..255; (b) all sequences of length<=L over {valid RS, RS hop 64, NS hop 255, RA hop 1, transient receive timeout (at most 4)} followed by a valid RS, and (length<=3; thorough: all) ending there with the listener left waiting; (c) runs of 1..12 consecutive invalid messages (pure, mixed, with a timeout inside; retry budget is 5) ending there and followed by a valid RS; counters are read while the task is still running; oracle: invalid counter = number of invalid messages by type, handled/monitor counters = valid ones, one unicast RA per valid RS, every message read within 310ms of its arrival (receive back-off never grows with invalid traffic), Run still running and no re-dial at the end; states = sequences executed; non-trivial = sequence contains an invalid message; distinct = distinct (mode, sequence)"
 	if r.Replay != nil {
 		var c c09Case
 		if err := json.Unmarshal(r.Replay, &c); err != nil {
@@ -332,7 +332,8 @@ func TestVerifC09(t *testing.T) {
 						c.Seq = append(c.Seq, c09Msg{"TO", 0})
 					}
 				}
-				c.Seq = append(c.Seq, c09Msg{"RS", 255})
+				one(c) // the run of invalid messages is the last thing received
+				c.Seq = append(append([]c09Msg(nil), c.Seq...), c09Msg{"RS", 255})
 				one(c)
 				if k <= 6 {
 					c.Verbose = true // verbose logging must not change what is delivered
@@ -357,7 +358,13 @@ func TestVerifC09(t *testing.T) {
 			if nto > 4 {
 				return true // five timeouts legitimately exhaust the retry budget (C10's subject)
 			}
-			c.Seq = append(c.Seq, c09Msg{"RS", 255})
+			// The same history ending here (the listener is left waiting for the next
+			// message: what was received must already be counted), and followed by a
+			// valid solicitation.
+			if len(seq) <= 3 || r.Thorough() {
+				one(c)
+			}
+			c.Seq = append(append([]c09Msg(nil), c.Seq...), c09Msg{"RS", 255})
 			one(c)
 			return !r.OverBudget()
 		})
